@@ -8,6 +8,17 @@ EXTENDS Adt
 \* tags, small zig-zag values (-1 = 01, -2 = 03, 1 = 02), varint continuation, extremes
 Alphabet == {0, 1, 2, 3, 127, 128, 254, 255}
 
+RECURSIVE StringsOver(_, _)
+StringsOver(A, n) == IF n = 0 THEN {<<>>} ELSE LET Prev == StringsOver(A, n - 1) IN Prev \cup {Append(s, a) : s \in {x \in Prev : Len(x) = n - 1}, a \in A}
+
+\* string-table targets: with the alphabet {0, 1, 2, 3, 5} (empty literal, one-byte literals, back-references -1, -2, -3)
+\* six bytes suffice for "literal, the same literal again, another literal, back-reference"
+DedupAlphabet == {0, 1, 2, 3, 5}
+DS == [k |-> "dstr"]
+DedupTargets == {[k |-> "tup", es |-> <<DS, DS, DS, DS>>], [k |-> "vec", e |-> DS], [k |-> "tup", es |-> <<DS, [k |-> "str"], DS, DS>>],
+                 StructT(<<Fld(<<115>>, DS, "plain", FALSE, <<>>), Fld(<<116>>, DS, "plain", FALSE, <<>>), Fld(<<117>>, DS, "plain", FALSE, <<>>)>>,
+                         <<Stp("Removed", <<103>>, <<>>)>>)}
+
 RECURSIVE StringsUpTo(_)
 StringsUpTo(n) == IF n = 0 THEN {<<>>} ELSE LET Prev == StringsUpTo(n - 1) IN Prev \cup {Append(s, a) : s \in {x \in Prev : Len(x) = n - 1}, a \in Alphabet}
 
